@@ -95,6 +95,14 @@ func (a *ConstFuncParamAnnotator) VisitFuncDecl(decl *ast.FuncDecl) ast.VisitRes
 	a.CurrentModule.Ast.AddAttachement(decl, attachement)
 	a.currentDecl = decl
 
+	// the body of a forward declaration comes later in the module, after other functions were visited:
+	// look at it now, while the parameters of this function are the tracked ones
+	if ast.IsForwardDecl(decl) {
+		ast.VisitNode(a, body, nil)
+		a.currentDecl = nil
+		return ast.VisitSkipChildren
+	}
+
 	return ast.VisitRecurse
 }
 
